@@ -271,6 +271,7 @@ func (v *Validator) UpdateDelegationFrom(d *DelegationFrom) (flag params.CurdFla
 		if empty {
 			return params.Noop
 		}
+		v.Delegations = v.Delegations.copyForUpdate()
 		//add new
 		v.Delegations = append(v.Delegations, d)
 		if i < oldLen {
@@ -280,6 +281,7 @@ func (v *Validator) UpdateDelegationFrom(d *DelegationFrom) (flag params.CurdFla
 		return params.Create
 	} else {
 		// already exist
+		v.Delegations = v.Delegations.copyForUpdate()
 		if empty {
 			// delete
 			copy(v.Delegations[i:oldLen-1], v.Delegations[i+1:])
@@ -291,6 +293,14 @@ func (v *Validator) UpdateDelegationFrom(d *DelegationFrom) (flag params.CurdFla
 		v.Delegations[i] = d
 		return params.Update
 	}
+}
+
+// copyForUpdate returns a copy of the slice with room for one more entry.
+// PartialCopy shares the Delegations backing array between the old and the new
+// validator object, so an in-place update would also change the old object
+// (which the journal keeps for reverting).
+func (d DelegationFroms) copyForUpdate() DelegationFroms {
+	return append(make(DelegationFroms, 0, len(d)+1), d...)
 }
 
 func (v *Validator) AddTotalRewards(reward *big.Int) {
